@@ -37,6 +37,7 @@ def declare(rep):
     rep.rule("C10.virtual-dtor", "a class that takes ownership of a derived object through unique_ptr<Base>/delete Base* has a virtual destructor", floor=3)
     rep.rule("C10.init-before-use", "scalar fields of node/face/edge/cell with no initialiser are written by an earlier phase of solver::solver + run_iteration than the first phase that reads them, also for elements created later", floor=10)
     rep.rule("C10.format-buffer", "every format_number call has a literal format whose maximal output for the argument fits the 30-byte buffer", floor=25)
+    rep.rule("C10.face-index", "the box index f->global_face_id_ used by the contact look-up equals the face's position in face_lst_ (no out-of-range / foreign box read)", floor=1)
     rep.rule("C10.remove-index-sorted", "the index vector passed to remove_index is ascending (sorted before the call, or filled by an ascending loop)", floor=6)
 
 
@@ -484,9 +485,11 @@ def run_format(rep, prog):
 
 
 # ------------------------------------------------------------------------------------------
-def run_remove_index(rep, prog):
+def run_remove_index(rep, prog, rule="C10.remove-index-sorted", only=None):
     for fn in product_fns(prog):
         if not isinstance(fn.get("body"), dict):
+            continue
+        if only is not None and fn["qn"] not in only:
             continue
         fi = prog.index(fn)
         for n in walk(fn["body"]):
@@ -516,7 +519,7 @@ def run_remove_index(rep, prog):
                         if cfg.may_follow(s, n) and not any(cfg.may_follow(s, p) and cfg.may_follow(p, n) for p in pushes):
                             ok_sorted = True
             if ok_sorted:
-                rep.ok("C10.remove-index-sorted", prog, fn, n, "%s is std::sort-ed (ascending) before the call with no insertion in between" % render(idx))
+                rep.ok(rule, prog, fn, n, "%s is std::sort-ed (ascending) before the call with no insertion in between" % render(idx))
                 continue
             # (b) every push pushes the induction variable of one ascending sequential for loop
             good = bool(pushes)
@@ -536,9 +539,9 @@ def run_remove_index(rep, prog):
                     break
             loops = {id(fi.enclosing(p, ("ForStmt",))) for p in pushes}
             if good and len(loops) == 1:
-                rep.ok("C10.remove-index-sorted", prog, fn, n, "%s is filled only by push_back(counter) of one ascending sequential loop" % render(idx))
+                rep.ok(rule, prog, fn, n, "%s is filled only by push_back(counter) of one ascending sequential loop" % render(idx))
             else:
-                rep.violation("C10.remove-index-sorted", prog, fn, n, "unsorted index vector %s" % render(idx).split("#")[0],
+                rep.violation(rule, prog, fn, n, "unsorted index vector %s" % render(idx).split("#")[0],
                               "remove_index requires ascending indices; %s is neither sorted before the call nor filled by a single ascending loop (%s): elements are moved from wrong positions / out of range" % (render(idx), why or "no dominating std::sort"))
 
 
@@ -560,3 +563,5 @@ def run(rep, prog, tier):
     run_e8(rep, prog)
     run_format(rep, prog)
     run_remove_index(rep, prog)
+    from .c06 import face_index
+    face_index(rep, prog, prog.config[0], rule="C10.face-index")
